@@ -85,6 +85,10 @@ def _variants():
     V.append(("halo-other", {"halo": 10.0}))
     V.append(("halo-zero", {"halo": 0.0}))
     V.append(("precision", {"precision": "single"}))
+    # a pair on an even padded grid (6x6 cells, no halo): one mode count above the padded size (the solver then keeps
+    # ALL modes in both axes) and the request that a per-axis clamp would turn it into
+    V.append(("modes-one-above-padded", {"q": np.ones((6, 6)), "halo": 0.0, "modes": (8, 4)}))
+    V.append(("modes-per-axis-clamp-of-it", {"q": np.ones((6, 6)), "halo": 0.0, "modes": (6, 4)}))
     # requests that differ in the last digits only must not share an entry either
     V.append(("meas_pt-tiny", {"meas_pt": (10.0 + 1e-9, 14.0)}))
     p = list(b["profiles"])
@@ -317,7 +321,7 @@ def machine(tier, stats, last_fail):
         def solve(self, i):
             self._do(["solve", i])
 
-        @rule(i=st.sampled_from([0, 0, 10, 11, 15, 17, 18]))
+        @rule(i=st.sampled_from([0, 0, 10, 11, 15, 17, 18, NAMES.index("modes-one-above-padded"), NAMES.index("modes-per-axis-clamp-of-it")]))
         def solve_common(self, i):
             self._do(["solve", i])
 
